@@ -27,7 +27,7 @@ EXPLANATION = ('BlockRow/BlockDiagonal/BlockColumn operators over list/tuple/dic
 FUNCTIONS = ['BlockRowOperator.__init__/mv/transpose/out_structure/as_matrix', 'BlockDiagonalOperator.mv/transpose/inverse/as_matrix/reduce',
              'BlockColumnOperator.__init__/mv/transpose/in_structure/as_matrix', 'AbstractBlockOperator.in_structure/out_structure/reduce',
              'BlockRowBlockDiagonalRule', 'BlockDiagonalBlockColumnRule', 'BlockDiagonalBlockDiagonalRule', 'BlockRowBlockColumnRule']
-BOUNDS = {'quick': 'containers list/tuple/dict/nested/single, arity 1-3, blocks from 8 catalogue kinds on (3,) vectors and 4 kinds on a '
+BOUNDS = {'quick': 'containers list/tuple/dict/dict with unsorted insertion order/nested/single, arity 1-3, blocks from 8 catalogue kinds on (3,) vectors and 4 kinds on a '
                    'heterogeneous pytree; seeded 5 block tuples per (kind, container, arity); adjacent products: 3 seeded + 1 fixed non-commuting triple per (container, rule pair, arity) stratum',
           'thorough': 'all block tuples of arity <= 2 and seeded arity 3; 400 adjacent products'}
 STUBS = []
@@ -43,7 +43,7 @@ POOLS = {
     ('tree', 'col'): ['k', 'D', 'Et', 'E', 'Rv', 'Ix'],
     ('tree', 'diag'): ['k', 'D', 'E', 'Rv', 'Ix', 'I'],
 }
-CONTAINERS = ['list', 'tuple', 'dict', 'nest']
+CONTAINERS = ['list', 'tuple', 'dict', 'nest', 'udict']
 INVERTIBLE = {'vec': ['k', 'D', 'I3'], 'tree': ['k', 'D', 'I']}
 
 
@@ -218,6 +218,9 @@ def run_case(key, twin=False):
             for i, o in enumerate(outs):
                 xi = xf if kind == 'col' else E.flat_elems(container_get(cont, x, i, n))
                 mats.append(linear_matrix(E.flat_elems(o, ctx), xi))
+            # blocks in PYTREE-LEAF order of the container (sorted keys for dicts), which is the order of the flattened vectors
+            order = jax.tree.leaves(make_container(cont, list(range(n))))
+            mats = [mats[i] for i in order]
             if kind == 'row':
                 W = np.concatenate(mats, axis=1)
             elif kind == 'col':
